@@ -61,7 +61,12 @@ def oob_indices(f):
     return [K, K + 1, 2 * K, USIZE_MAX]
 
 
-def gen_cases(d, by_name, rng, tier):
+def writable_ok(f):
+    """writes through a range list that names a bit twice are outside every guarantee (C04)"""
+    return 'w' in f['acc'] and nodup(ranges(f))
+
+
+def gen_cases(d, by_name, rng, tier, has_builder=False):
     """-> list of scenarios (r0, [op]); op = ('G',f,i) | ('W',f,i,v) | ('S',f,i,v) | ('R',)"""
     W = d['base']
     scen = []
@@ -77,7 +82,7 @@ def gen_cases(d, by_name, rng, tier):
                 scen.append((r, [('G', f['name'], i) for i in idxs]))
             if is_arr:
                 scen.append((rng.getrandbits(W), [('G', f['name'], i) for i in oob_indices(f)]))
-        if 'w' in f['acc']:
+        if writable_ok(f):
             vals = values_for(rng, f, by_name)
             if exhaustive_set and not (f['ty']['k'] == 'custom'):
                 vals = list(range(1 << ty_width(f['ty'])))
@@ -98,8 +103,22 @@ def gen_cases(d, by_name, rng, tier):
                 v0 = vals[0]
                 scen.append((rng.getrandbits(W), [(k, f['name'], i, v0) for i in oob_indices(f) for k in ('W', 'S')] + [('R',)]))
     # histories
-    writable = [f for f in d['fields'] if 'w' in f['acc']]
+    writable = [f for f in d['fields'] if writable_ok(f)]
     readable = [f for f in d['fields'] if 'r' in f['acc']]
+    # builder chains (only offered when no bit is writable twice, so every writable field is duplicate-free)
+    if has_builder:
+        for _ in range(4 if quick else 20):
+            args = []
+            for f in d['fields']:
+                if 'w' in f['acc']:
+                    vals = values_for(rng, f, by_name, k_random=3)
+                    args += [rng.choice(vals) for _ in range(fcount(f))]
+            ops = [('B', args)]
+            for f in readable:
+                for i in indices_for(rng, f):
+                    ops.append(('G', f['name'], i))
+            ops.append(('R',))
+            scen.append((rng.getrandbits(W), ops))
     if writable:
         nh = 3 if quick else 12
         for _ in range(nh):
@@ -130,6 +149,8 @@ def coq_op(o):
         return '(OpWith %s %d %d)' % (cstr(o[1]), o[2], o[3])
     if o[0] == 'S':
         return '(OpSet %s %d %d)' % (cstr(o[1]), o[2], o[3])
+    if o[0] == 'B':
+        return '(OpBuild [%s])' % '; '.join(str(x) for x in o[1])
     return 'OpRaw'
 
 
